@@ -850,6 +850,9 @@ MUTANTS = [
     M('split-option-rebound-before-retry', U,
       "        if not allow_overlap and ellipsoids_overlap(\n                self.bounds[:index] + self.bounds[index+1:] + new_bounds):\n            return False\n",
       "        allow_overlap = allow_overlap or not ellipsoids_overlap(\n            self.bounds[:index] + self.bounds[index+1:] + new_bounds)\n        if not allow_overlap:\n            return False\n", 'C13'),
+    M('top-up-by-value-threshold', U,
+      "            labels[:] = 1 - label\n            labels[np.argsort(-p[:, label])[:self.n_points_min]] = label\n",
+      "            p_min = np.partition(p[:, label], -self.n_points_min)[\n                -self.n_points_min]\n            labels = np.where(p[:, label] >= p_min, label, 1 - label)\n", 'C13'),
     M('job-returns-the-caller', N,
       "        bound.sample(n_points=n_points, return_points=False)\n        return bound\n",
       "        bound.sample(n_points=n_points, return_points=False)\n        return self\n", 'C08 C03'),
